@@ -152,10 +152,19 @@ func (c *c11World) concurrentStart() {
 	var ok bool
 	var dummy string
 	c.sc.SendAllStatus(&dummy, &ok)
-	held := false
 	if c.kind != 3 && c11HoldConfigSave != nil {
-		c11HoldConfigSave(true) // a configuration save in progress: PrepareRun waits for it
-		held = true
+		// A configuration save in progress: PrepareRun waits for it. The save takes its own time, whatever
+		// the clients do meanwhile (with one request served at a time, client A's requests below wait for
+		// B's Start, so the save must not wait for them).
+		saveTakes := time.Duration(20+simrt.Draw(400)) * time.Millisecond
+		saving := make(chan struct{})
+		go func() {
+			c11HoldConfigSave(true)
+			close(saving)
+			time.Sleep(saveTakes)
+			c11HoldConfigSave(false)
+		}()
+		<-saving
 	}
 	bDone := make(chan error, 1)
 	name := c.name
@@ -177,9 +186,6 @@ func (c *c11World) concurrentStart() {
 			simrt.Hit("request-while-start-in-progress")
 		}
 		c.call(c.ordinaryRequest(false))
-	}
-	if held {
-		c11HoldConfigSave(false)
 	}
 	errB := <-bDone
 	c.overlap = false
